@@ -72,6 +72,10 @@ def run_in_process(mod, ctx: Ctx):
     if reach is not None:
         ctx.extra["reach_calls_per_anchored_function_capped"] = reach.entered(set(files))
         ctx.extra["reach_lines_hit"] = reach.lines_hit(set(files))
+        dump = os.environ.get("SPV_REACH_DUMP")
+        if dump:       # analysis aid: every executed line of the tree under test, appended as one JSON line per process
+            with open(dump, "a") as f:
+                f.write(json.dumps({"prop": ctx.prop, "lines": sorted([fn[len(reach.prefix):], ln] for fn, ln in reach.lines)}) + "\n")
 
 
 def main(argv=None) -> int:
